@@ -36,7 +36,7 @@ def run(ctx):
         ml, mi = rng.choice(SIZES)
         u = rng.choice([6, 14, 30, 60])
         calls = [c for c in gen_history(rng, kind, u, rng.choice([8, 20, 40, 70]), selfops=True)]
-        mode = rng.choice({"O": ["none-int", "str", "int"]}.get(fn[0], [None, "extreme"] if fn != "fs" else [None]))
+        mode = rng.choice({"O": ["none-int", "str", "int"]}.get(fn[0], [None, "extreme"]))
         if mode == "none-int":
             calls = gen_history(rng, kind, u, len(calls), avoid0=True, selfops=True)
         use_subclass = rng.random() < 0.25
